@@ -370,21 +370,6 @@ def _fit(case, order, est=None, typed=False):
     out["sizes"] = [int(b.coefficients.shape[1]) for b in basis]
     out["phi"] = [np.asarray(b.basis.values).tolist() for b in basis]
     out["B"] = [np.asarray(b.basis._inner_product_matrix).tolist() if getattr(b.basis, "_inner_product_matrix", None) is not None else None for b in basis]
-    # cause test of the finding C04-gram-absolute-threshold: Basis.inner_product zeroes entries below 1e-12 ABSOLUTELY; the
-    # flag is set only if the stored matrix is exactly the true Gram matrix (np.trapz) with its entries below 1e-12 zeroed
-    # and at least one of them is not negligible relative to the largest entry
-    thr = False
-    for q, b in enumerate(basis):
-        if out["B"][q] is None:
-            continue
-        tq = np.asarray(b.basis.argvals["input_dim_0"], dtype=float)
-        ph = np.asarray(b.basis.values, dtype=float)
-        Gt = np.array([[np.trapz(ph[a] * ph[c], tq) for c in range(len(ph))] for a in range(len(ph))])
-        small = (np.abs(Gt) < 1e-12) & (np.abs(Gt) > 1e-9 * np.abs(Gt).max())
-        Gz = np.where(np.abs(Gt) < 1e-12, 0.0, Gt)
-        if small.any() and np.abs(np.asarray(out["B"][q]) - Gz).max() <= 1e-8 * max(np.abs(Gt).max(), 1e-300):
-            thr = True
-    out["gram_thresholded"] = bool(thr)
     out["eigenvalues"] = np.asarray(est.eigenvalues).tolist()
     out["coef"] = [np.asarray(e.coefficients).tolist() for e in est.eigenfunctions.data]  # K × s_p each
     with np.errstate(all="ignore"):
@@ -1046,8 +1031,6 @@ def _causes(f):
             causes.append("near_degenerate_eigenvalues")
     if N - 1 < xi.shape[1]:
         causes.append("fewer_observations_than_coefficients")
-    if f.get("gram_thresholded"):
-        causes.append("basis_gram_absolute_threshold")
     return causes
 
 
